@@ -122,6 +122,12 @@ TIMEOUT_TABLE = [(None, None), ("0", 0), ("1", 1), ("1500", 1500), ("1000000000"
 
 
 def cex_c11(obl, results, env):
+    if obl['id'].startswith('Builder::start::'):
+        import validate
+        try:
+            return _first_fail(validate.default_timeouts_wiring(env))
+        except driver.Undecided:
+            return None
     kr = _unit(results, 'kani_timeout')
     cands = []
     if kr and kr.get('status') == 'ok':
